@@ -27,7 +27,8 @@ with the mutant):
     check-callback-prefix  Check(fn(key, off)) passes the suffix without the leaf prefix  VIOLATION at a ChkKeys event
     builder-count-dup      Builder.Add counts a refused duplicate                        VIOLATION at a State event (Check() panics)
     builder-size-stale-prefix (seeded/C10-builder-size-stale-prefix-r2) leafBuilder.tryAdd VIOLATION at the Nodes event of a bulk
-                           sizes the leaf with the prefix BEFORE adding the key           build (leaves of 15735 and 22650 bytes)
+                           sizes the leaf with the prefix BEFORE adding the key           build (lbuild/nearmax: leaves of 8199 / 8320
+                                                                                          bytes; lbuild/groups: 15735 / 22650 bytes)
     tryadd-size            leafBuilder.tryAdd allows 200 bytes more                       VIOLATION at the Nodes event of a bulk
                            (round 1: hidden behind the known finding, matched by text)    build (leaf of 8307 bytes)
     fieldslimit-plus-50    Builder fast-path limit 50 bytes higher                        VIOLATION at the Nodes event of a bulk
